@@ -43,7 +43,7 @@ class Check(CheckBase):
     def generate(self):
         quick = self.tier == 'quick'
         cases = []
-        for i in range(56 if quick else 900):
+        for i in range(56 if quick else 2700):
             r = random.Random(f'C15/{self.seed}/{i}')
             cases.append({'seed': r.randrange(1 << 30), 'flavour': 'async' if i % 2 else 'sync',
                           'settings': gen.gen_settings(r, encrypted=(i % 3 != 2), chunker=r.choice([(8, 64), (16, 257), (12, 12)])),
